@@ -290,6 +290,7 @@ package client
 //@   ensures responses_reach_requests: [C16] result == nil && old(bval(aval(c.accepted))) && (typeis(m.Payload, *Headers) || typeis(m.Payload, *Header) || typeis(m.Payload, *FeeQuotes)
 //@        || typeis(m.Payload, *BaseTx) || typeis(m.Payload, *Accept) || typeis(m.Payload, *Reject)) ==> ncalls(addRequestResponse) == 1
 //@   assert hands_over_the_message at call addRequestResponse : [C16] arg1 != nil && arg1.message == m
+//@   assert headers_wait_for_the_verdict at call addRequestResponse : [C17] typeis(m.Payload, *Headers) ==> arg1.response != nil
 //@   requires c != nil && m != nil && typeis(aval(c.nextMessageID), uint64) && typeis(aval(c.accepted), bool)
 //@   ensures tx_match: [C17] old(bval(aval(c.accepted))) && typeis(m.Payload, *Tx) && as(m.Payload, *Tx).ID == old(nextID(c)) ==> nextID(c) == uint64(old(nextID(c)) + 1)
 //@   ensures tx_skip: [C17] typeis(m.Payload, *Tx) && as(m.Payload, *Tx).ID != old(nextID(c)) ==> nextID(c) == old(nextID(c))
@@ -313,13 +314,18 @@ package client
 //@   requires c != nil && typeis(aval(c.nextMessageID), uint64)
 //@   ensures value: result == nextID(c)
 
+// C17 (no notification lost around Ready): the server starts streaming as soon as it reads the ready
+// message, on another goroutine of the client; the id the stream is checked against is therefore in
+// place before the message is written (a store after the send overwrites the progress the receive
+// pipeline has made in between - reproduced, see known_findings.json "fixed").
 //@ func (*RemoteClient).Ready
 //@   serves C17 C18
 //@   opt nomonitor = 1
 //@   requires c != nil
 //@   ensures declared: result == nil ==> typeis(aval(c.nextMessageID), uint64) && nextID(c) == ite(nextMessageID == 0, 1, nextMessageID)
 //@   assert ready_is_handshake at call sendDirect : [C18] isHS(PayloadType(arg2.Payload))
-//@   ensures failed_keeps: result != nil ==> aval(c.nextMessageID) == old(aval(c.nextMessageID)) && aval(c.handshakeComplete) == old(aval(c.handshakeComplete))
+//@   assert id_is_declared_before_the_ready_message at call sendDirect : [C17] typeis(aval(c.nextMessageID), uint64) && nextID(c) == ite(nextMessageID == 0, 1, nextMessageID)
+//@   ensures failed_keeps: result != nil ==> aval(c.handshakeComplete) == old(aval(c.handshakeComplete))
 
 // ---- what may be written to a connection before the handshake is complete (C18) ----
 
@@ -465,10 +471,13 @@ package client
 //@ spec pendingOK(c) = forall(k, 0, len(c.requests), c.requests[k] != nil)
 //@ spec notBefore(c, r, n) = forall(k, 0, n, c.requests[k] != r)
 
+// C17 (order): the handler queue has one producer, the receive pipeline (handleMessage); the requests
+// goroutine never offers a message to it, so a notification cannot be overtaken on the way.
 //@ func (*RemoteClient).runRequests
-//@   serves C16
+//@   serves C16 C17
 //@   opt nomonitor = 1
 //@   opt partial = 1
+//@   assert handler_queue_has_one_producer at call addHandlerMessage ifany : [C17] false
 //@   requires c != nil && pendingOK(c)
 //@   loop 0 invariant pendingOK(c)
 //@   loop 1 invariant 0 <= _i && _i <= len(c.requests) && sinceloop(same(c.requests)) && pendingOK(c) && notBefore(c, request, _i)
